@@ -86,6 +86,10 @@ type SPConfig struct {
 	ValidateEncCert bool  `json:"validateEncCert"`
 	AllowMissing    bool  `json:"allowMissingAttributes"`
 
+	// LateSignOptions: the signature algorithm and canonicaliser are assigned AFTER the key setters ran (and before
+	// the first use) instead of in the struct literal: both orders configure the same service provider
+	LateSignOptions bool `json:"lateSignOptions,omitempty"`
+
 	SignRequests bool   `json:"signRequests"`
 	SignAlg      string `json:"signAlg"`
 	SignC14N     string `json:"signC14N"` // "" = nil canonicaliser
@@ -152,7 +156,7 @@ func (c SPConfig) Build() *saml2.SAMLServiceProvider {
 		AllowMissingAttributes:      c.AllowMissing,
 		MaximumDecompressedBodySize: c.MaxSize,
 		SignAuthnRequests:           c.SignRequests,
-		SignAuthnRequestsAlgorithm:  c.SignAlg,
+		SignAuthnRequestsAlgorithm:  map[bool]string{false: c.SignAlg, true: ""}[c.LateSignOptions],
 		NameIdFormat:                c.NameIDFormat,
 		ForceAuthn:                  c.ForceAuthn,
 		IsPassive:                   c.IsPassive,
@@ -163,7 +167,7 @@ func (c SPConfig) Build() *saml2.SAMLServiceProvider {
 	if !c.NilClock {
 		sp.Clock = dsig.NewFakeClockAt(c.Now())
 	}
-	if c.SignC14N != "" {
+	if c.SignC14N != "" && !c.LateSignOptions {
 		sp.SignAuthnRequestsCanonicalizer = CanonicalizerFor(c.SignC14N)
 	}
 	if c.RAC != nil {
@@ -193,6 +197,12 @@ func (c SPConfig) Build() *saml2.SAMLServiceProvider {
 		}
 		if err := sp.SetSPSigningKeyStore(&saml2.KeyStore{Signer: signer, Cert: c.Sig.Setter.DER()}); err != nil {
 			panic(err)
+		}
+	}
+	if c.LateSignOptions {
+		sp.SignAuthnRequestsAlgorithm = c.SignAlg
+		if c.SignC14N != "" {
+			sp.SignAuthnRequestsCanonicalizer = CanonicalizerFor(c.SignC14N)
 		}
 	}
 	return sp
